@@ -333,12 +333,15 @@ func (x *Exec) freshResults(st *State, sig *types.Signature, hint string) Val {
 	case 0:
 		return nil
 	case 1:
-		return st.freshVal(rs.At(0).Type(), hint)
+		v := st.freshVal(rs.At(0).Type(), hint)
+		st.assumeAllocated(v)
+		return v
 	}
 	var tv TupleV
 	for i := 0; i < rs.Len(); i++ {
 		tv.E = append(tv.E, st.freshVal(rs.At(i).Type(), fmt.Sprintf("%s_%d", hint, i)))
 	}
+	st.assumeAllocated(tv)
 	return tv
 }
 
@@ -830,7 +833,7 @@ func (x *Exec) append1(st *State, sv SliceV, el Val) SliceV {
 		fam := "E|" + canon(sv.Elem) + "|" + l.Path
 		dims := []Sort{SInt, SInt}
 		h := st.heap(fam, dims, l.Sort)
-		st.recWriteH(h)
+		st.recWriteH(h, r)
 		n := newHeapConst(fam, dims, l.Sort, "h")
 		st.asserts = append(st.asserts, fmt.Sprintf("(= %s (store %s %s (store (select %s %s) %s %s)))", n.Name, h.Name, r.S, h.Name, sv.Arr.S, pos.S, ls[k].S))
 		st.heaps[fam] = n
@@ -845,7 +848,7 @@ func (x *Exec) appendSlice(st *State, sv, tv SliceV) SliceV {
 		fam := "E|" + canon(sv.Elem) + "|" + l.Path
 		dims := []Sort{SInt, SInt}
 		h := st.heap(fam, dims, l.Sort)
-		st.recWriteH(h)
+		st.recWriteH(h, r)
 		row := reg.fresh("row")
 		reg.declare(row, fmt.Sprintf("(declare-const %s (Array Int %s))", row, l.Sort))
 		q := reg.fresh("q")
